@@ -342,7 +342,7 @@ def collect(ctx, n_ir, n_sdd):
 
 def run(ctx):
     status = coqbuild.prove("C01", THEOREMS)
-    agg, items, corr, work = collect(ctx, 45 if ctx.quick else 600, 400 if ctx.quick else 6000)
+    agg, items, corr, work = collect(ctx, 45 if ctx.quick else 1800, 400 if ctx.quick else 18000)
     for cls, det, ir in items:
         ctx.item(cls, {"stage": "render as a docstring and parse it back", "clause": cls, "input": T.jsonable(ir) if ir else None, "detail": det})
     if not ctx.violations:
